@@ -1,4 +1,5 @@
 import RdsProofs.Reach
+import RdsProofs.WordedProofs
 import RdsProofs.LinkProofs
 /-!
 # Property C10 — AF list is exactly the set of valid FM codes received in 0A
@@ -9,6 +10,9 @@ and C whose first code is not 250 (`Mon.group`). That every addition fires the A
 87500 + 100·code kHz is part of C04 (`chkC04`'s AF clause).
 -/
 -- THEOREM: RDS.C10
+-- THEOREM: RDS.C10_worded_normal
+-- THEOREM: RDS.C10_worded_extended
+-- THEOREM: RDS.C10_monotone
 -- THEOREM: RDS.C10_only_valid_codes
 namespace RDS
 
